@@ -83,8 +83,13 @@ def call(tr, n, env):
   # --- methods
   if isinstance(n.func, ast.Attribute):
     m = n.func.attr
-    o, to = tr.expr(n.func.value, env) if ast.unparse(n.func.value) not in ('re', 'ast', 'atok', 'textbuilder') \
-      else (None, None)
+    try:
+      o, to = tr.expr(n.func.value, env) if ast.unparse(n.func.value) not in ('re', 'ast', 'atok', 'textbuilder') \
+        else (None, None)
+    except Untranslatable:
+      o, to = None, None         # a method of an oracle object: only tr.funcs (full dotted name) may know it
+    if to == 'text' and m == 'startswith' and len(n.args) == 1 and isinstance(n.args[0], ast.Constant) and ts == ['text']:
+      return '(starts_with %s %s)' % (a[0][0], o), 'B'
     if to == 'text' and m == 'get_text' and not a:
       return o, 'text'
     if to == 'text' and m == 'rstrip' and not a:
@@ -128,7 +133,7 @@ def call(tr, n, env):
     return '(%s %s)' % (env[n.func.id][0], a[0][0]), env[n.func.id][1][2]
   # --- generated functions (already translated, or translated on demand)
   name = f.split('.')[-1]
-  sig = tr.funcs.get(name) or tr.want(name, ts, n)
+  sig = tr.funcs.get(f) or tr.funcs.get(name) or tr.want(name, ts, n)
   if sig is not None:
     coq, params, result = sig
     vals = dict(zip([p for p, _ in params], a))
